@@ -84,6 +84,24 @@ fn main() {
                 println!("{} {:?}", p.id, subs);
             }
         }
+        "from-bytes" => {
+            // ovf from-bytes <ID>/<sub> <file>...   decode fuzzer inputs with the PassThrough bridge, run them, print the case
+            let (id, sub) = args[2].split_once('/').unwrap_or_else(|| usage());
+            let reg = props::registry();
+            let prop = reg.iter().find(|p| p.id == id).unwrap_or_else(|| usage());
+            let subs = (prop.subs)();
+            let s = subs.iter().find(|s| s.name() == sub).unwrap_or_else(|| usage());
+            ovf::refimpl::self_test();
+            let fz = s.byte_fuzzer(Tier::Thorough);
+            for f in &args[3..] {
+                let data = std::fs::read(f).unwrap_or_default();
+                let t0 = std::time::Instant::now();
+                match fz(&data, true) {
+                    None => println!("{}: does not decode ({:?})", f, t0.elapsed()),
+                    Some(r) => println!("{}: {:?} fail={:?} nontrivial={:?} case={}", f, t0.elapsed(), r.out.fail.map(|f| f.sig), r.out.nontrivial, ev::truncate(&r.case.map(|c| c.to_string()).unwrap_or_default(), 300)),
+                }
+            }
+        }
         "c06-entries" => {
             if args.len() < 3 {
                 usage();
@@ -115,7 +133,14 @@ fn main() {
             let mut ctx = PropCtx::new(prop.id, tier, seed);
             run_regress(&ctx, prop);
             (prop.run)(&mut ctx);
-            std::process::exit(ctx.finish());
+            // coverage-guided tier: corpus replay in every run, libFuzzer campaigns in the thorough tier
+            ovf::fz::campaign(&ctx, &(prop.subs)(), &props::fuzz_plans(prop.id));
+            let rc = ctx.finish();
+            if rc == 0 && ovf::fz::INCONCLUSIVE.load(std::sync::atomic::Ordering::Relaxed) {
+                // a fuzz campaign timed out / ran out of memory / could not run: not a violation, not a pass
+                std::process::exit(2);
+            }
+            std::process::exit(rc);
         }
         "replay" => {
             if args.len() < 3 {
@@ -137,6 +162,27 @@ fn main() {
             };
             ovf::refimpl::self_test();
             let subs = (prop.subs)();
+            if let Some(hex) = v["case"]["fuzz_input_hex"].as_str() {
+                // a raw fuzzer input (kept when the failure shows only in the sanitizer build): run it through the bridge here
+                let data = ev::unhex(hex);
+                let target = v["case"]["target"].as_str().unwrap_or("");
+                let fail = if target == "raw" {
+                    ovf::props::c07::raw_fuzz_entry(&data)
+                } else {
+                    subs.iter().find(|s| s.name() == target).and_then(|s| s.byte_fuzzer(Tier::Thorough)(&data, false)).and_then(|r| r.out.fail)
+                };
+                match fail {
+                    Some(Fail { sig, msg }) => {
+                        println!("VIOLATION property={} replay={}", pid, args[2]);
+                        println!("  sub={} sig={} msg={}", sub, sig, ev::truncate(&msg, 4000));
+                        std::process::exit(1);
+                    }
+                    None => {
+                        println!("replay passes in the release harness: property={} sub={} (the input was kept because the libFuzzer build failed on it: run target/fuzz/x86_64-unknown-linux-gnu/release/{} on the bytes)", pid, sub, if target == "raw" { "fz_raw" } else { "fz_sub" });
+                        std::process::exit(0);
+                    }
+                }
+            }
             let Some(s) = subs.iter().find(|s| s.name() == sub) else {
                 eprintln!("unknown sub-check {}", sub);
                 std::process::exit(2);
